@@ -356,3 +356,39 @@ seeded('seeded-C17-lazy-choose-parent', ['C17', 'C05', 'C15'], ['C17.choose'])
 seeded('seeded-C18-goal-at-generation', ['C18', 'C02'], ['C18.bfs', 'C02.goal'])
 seeded('seeded-C19-normalise-on-entry', ['C19'], ['C19.lossless'])
 seeded('seeded-C20-dunder-bool', ['C20'], ['C20.validity'])
+
+# round 2 of seeded changes
+seeded('seeded-R2C01-zero-steps-true', ['C01'], ['C01.kernel'])
+seeded('seeded-R2C03-rewire-cache', ['C03'], ['C03.link'])
+seeded('seeded-R2C07-thread-rng-cone', ['C07'], ['C07.source'])
+seeded('seeded-R2C08-get-or-insert', ['C08', 'C02'], ['C08.init', 'C02.reroot'])
+seeded('seeded-R2C13-epsilon-skip', ['C13'], ['C13.index'])
+seeded('seeded-R2C15-enforce-after-check', ['C01', 'C03', 'C05'], ['C01.admit', 'C03.link', 'C05.radius'])
+
+
+# ---------------------------------------------------------------- behaviour-preserving refactorings written by independent
+# sub-agents (selftest/benign/*.diff, each with the agent's equivalence notes in the .md next to it): no check may fire
+ALL = ['C01', 'C02', 'C03', 'C05', 'C06', 'C07', 'C08', 'C09', 'C10', 'C11', 'C12', 'C13', 'C15', 'C16', 'C17', 'C18', 'C19', 'C20']
+
+
+def benign_patch(name, props):
+    CASES.append({'name': 'benign-' + name, 'props': props, 'expect': [], 'edits': [], 'patch': '/verif/selftest/benign/%s.diff' % name})
+
+
+benign_patch('ben1-r1', ALL)                                   # shared motion_is_valid in planners/mod.rs
+benign_patch('ben1-r2', ALL)                                   # nearest()/steer() helpers in RRT and RRT*
+benign_patch('ben2-r1', ALL)                                   # PRM find_linkable_neighbours()/add_milestone()
+benign_patch('ben2-r2', ALL)                                   # PRM search() helper returning Result<(parents, goal), _>
+benign_patch('ben2-r3', ['C09', 'C10', 'C11', 'C12', 'C13', 'C06', 'C08'])   # RealVector zip / all(|i| ..)
+benign_patch('ben2-r4', ['C09', 'C10', 'C11', 'C12', 'C13', 'C06', 'C07', 'C08'])   # SO3 center()/max_angle()/dot(), SO2 wrap()
+benign_patch('ben3-r1', ['C19', 'C20'])                        # one generic Python validity adapter
+benign_patch('ben3-r2', ['C19', 'C20'])                        # shared ProblemDefinition constructor
+benign_patch('ben3-r3', ['C19', 'C20'])                        # macro_rules! arms in the Python RRT wrapper
+benign_patch('ben4-r1', ALL)                                   # read-only accessors
+benign_patch('ben4-r2', ['C02', 'C09', 'C19'])                 # Path::path_length
+benign_patch('ben4-r3', ALL)                                   # RRT iteration counter
+benign_patch('ben4-r4', ALL)                                   # hoisted `let space = &pd.space`
+benign_patch('c13-zero-weight-skip', ['C13', 'C09', 'C06', 'C08'])
+benign_patch('c08-option-insert', ['C08', 'C02', 'C01', 'C18', 'C07'])
+case('benign-rrt-eq0-threshold', ['C01', 'C03', 'C06'], [],
+     (RRT, "            if num_steps <= 1 {\n                return vc.is_valid(to);", "            if num_steps == 0 {\n                return vc.is_valid(to);"))
